@@ -847,20 +847,22 @@ def SubOK (p : Nat → Bool) (s : Expr) : Prop :=
   ∀ rest, ∃ n, ∀ f, n ≤ f → parseSubscriptList f (toks (unparse p s 0) ++ .op .rsqb :: rest) = some (s, rest)
 
 /-- a single element whose rendering does not depend on the level 0 / 1 -/
-theorem subOK_of_elem (p : Nat → Bool) {s : Expr} (h : SubElemOK p s) (h01 : unparse p s 0 = unparse p s 1) : SubOK p s := by
+theorem subOK_of_elem (p : Nat → Bool) {s : Expr} (h : SubElemOK p s) (h01 : unparse p s 0 = unparse p s 1)
+    (hns : isStarred s = false) : SubOK p s := by
   intro rest
   obtain ⟨n, hn⟩ := subElem_parse p h (c := .op .rsqb) (Or.inr rfl) rest
   refine ⟨n + 1, fun fuel hf => ?_⟩
   obtain ⟨f, rfl⟩ : ∃ f, fuel = f + 1 := ⟨fuel - 1, by omega⟩
   rw [h01, parseSubscriptList, hn f (by omega)]
+  simp [hns]
 
-/-- NOTE (`x[*a]`): holds for the parser as it is (`x[*a]` is `Subscript(x, Starred a)`); see the note at `fx`. -/
-theorem subOK_starred (p : Nat → Bool) {v : Expr} (h : GoodP p v) : SubOK p (.starred v) :=
-  subOK_of_elem p (SubElemOK.star h) (by simp [unparse])
+-- (`x[*a]`): since the /repo fix of `SubscriptList` a single starred index is read as the 1-tuple `Tuple [Starred a]`
+-- (as in CPython), so a bare `Starred` directly under `Subscript` is no longer parser-producible and is not in the
+-- fragment (`fx .sub (.starred _) = false`); the 1-tuple is rendered `x[*a,]` and covered by `subOK_tuple`.
 
 theorem subOK_slice (p : Nat → Bool) {lo hi st : Option Expr} (hlo : GoodOpt p lo) (hhi : GoodOpt p hi)
     (hst : GoodOpt p st) : SubOK p (.slice lo hi st) :=
-  subOK_of_elem p (SubElemOK.slice hlo hhi hst) (by cases st <;> simp [unparse])
+  subOK_of_elem p (SubElemOK.slice hlo hhi hst) (by cases st <;> simp [unparse]) rfl
 
 /-- `x[n := v]`: the bare named expression -/
 theorem subOK_named (p : Nat → Bool) (n : Ident) {v : Expr} (hv : GoodP p v) : SubOK p (.namedExpr (.name n) v) := by
@@ -872,6 +874,7 @@ theorem subOK_named (p : Nat → Bool) (n : Ident) {v : Expr} (hv : GoodP p v) :
   refine ⟨m + 3, fun fuel hf => ?_⟩
   obtain ⟨f, rfl⟩ : ∃ f, fuel = f + 3 := ⟨fuel - 3, by omega⟩
   rw [e1, parseSubscriptList, parseSubscript, parseNamedTest, hm f (by omega)]
+  rfl
 
 /-- the remaining elements of a tuple index -/
 theorem subscriptsRT (p : Nat → Bool) : (xs : List Expr) → (∀ x ∈ xs, SubElemOK p x) → ∀ (x : Expr), SubElemOK p x →
